@@ -18,6 +18,10 @@ structure Cons (g : Block) (T : List Block) (s : State) : Prop where
   last : ∀ t r, s.best = t :: r → s.last = t.height
   blocks : ∀ x ∈ s.best, x ∈ g :: T ∧ s.stored x.id = some x ∧ s.tds x.id = some (TD (g :: T) x)
   txv : s.txIdx = txViewOf s.best
+  /-- every stored header/body record (also of side blocks) is a tree block under its own hash,
+  with the tree's total difficulty -/
+  storedOk : ∀ i x, s.stored i = some x → x ∈ g :: T ∧ x.id = i ∧ s.tds i = some (TD (g :: T) x)
+  seqOk : s.recSeq = true → 0 ≤ s.lastSeq
 
 /-- structural invariant + tree facts that hold in every state of a reorganisation. -/
 structure Mid (g : Block) (T : List Block) (s : State) : Prop where
@@ -31,7 +35,11 @@ variable {g : Block} {T : List Block}
 theorem Mid.cons {s : State} (h : Mid g T s) : Cons g T s :=
   ⟨h.inv.linked, h.inv.h2h, h.inv.last,
    fun x hx => ⟨h.idxSub x (h.inv.bestIn x hx), h.inv.stored x (h.inv.bestIn x hx), h.tdEq x (h.inv.bestIn x hx)⟩,
-   h.txv⟩
+   h.txv,
+   fun i x hx => by
+     obtain ⟨hxi, hid⟩ := h.inv.storedIn i x hx
+     exact ⟨h.idxSub x hxi, hid, by rw [← hid]; exact h.tdEq x hxi⟩,
+   h.inv.seqOk⟩
 
 theorem mid_of_tbase {F : Nat} {s : State} (h : TBase g T F s) : Mid g T s := ⟨h.inv, h.idxSub, h.tdEq, h.txv⟩
 
@@ -230,7 +238,7 @@ theorem connectBestChainT_mid (ht : Tree g T) {s : State} (h : Mid g T s) {b p :
         · exact reorgToT_mid ht h hb e he
 
 theorem cons_of_addIndex {s : State} {b : Block} (h : Cons g T (addIndex s b)) : Cons g T s :=
-  ⟨h.linked, h.h2h, h.last, h.blocks, h.txv⟩
+  ⟨h.linked, h.h2h, h.last, h.blocks, h.txv, h.storedOk, h.seqOk⟩
 
 /-- accepting a fresh tree block: all trace states are consistent, the result keeps the tree
 invariant. -/
